@@ -1,7 +1,7 @@
 """C05 — DSU: union by size as an entailed fact, size bookkeeping, return value, reset coverage,
 find shape, who-may-write.  See DESIGN.md §4 C05."""
 from .. import util, zones
-from ..absint import tstr, mk_int
+from ..absint import subterms, tstr, mk_int
 from ..core import Anchor
 
 PID = "C05"
@@ -35,6 +35,9 @@ FIXTURES = [
     ("c05_bad_size_wrong_root", "bad", ["D2"]),
     ("c05_bad_size_no_find", "bad", ["D4"]),
     ("c05_bad_reset_only_p", "bad", ["D5"]),
+    ("c05_bad_reset_conditional", "bad", ["D5"]),
+    ("c05_good_reset_clear_resize", "good", []),
+    ("c05_good_reset_fill", "good", []),
     ("c05_good_ifelse", "good", []),
 ]
 
@@ -270,27 +273,53 @@ def _check_init(col, crate, rid, P, SZ):
     n = ("param", 2, I.names.get(2))
     done = {P: False, SZ: False}
     resized = {P: False, SZ: False}
-    ends = I.final_states
-    # loop-body stores are on the back-edge states
+    # loop-body stores are on the back-edge states; trace partitioning gives one state per path through
+    # the body, so "every i<n is initialised" needs the store on EVERY back-edge state of one loop
+    stray = {P: [], SZ: []}
+
+    def conforming(ev, f):
+        idx = util.index_into_field(ev.place, f)
+        if idx is None:
+            return None
+        full = idx[0] == "elem" and idx[2] == mk_int(0) and idx[3] == n
+        val_ok = (ev.val == idx) if want[f] == "index" else (ev.val == mk_int(1))
+        return bool(full and val_ok)
+
     for st in I.all_end_states():
+        cleared = set()
         for ev in st.event_list():
-            if ev.kind == "call" and ev.extra.get("name") == "resize":
+            if ev.kind == "call" and ev.extra.get("name") in ("resize", "clear", "fill"):
                 a = ev.args[0]
-                if a[0] == "ref" and a[1][0] == "field" and a[1][2] in resized and ev.args[1] == n:
-                    resized[a[1][2]] = True
-            if ev.kind == "store":
-                for f, role in want.items():
-                    idx = util.index_into_field(ev.place, f)
-                    if idx is None:
-                        continue
-                    full = idx[0] == "elem" and idx[2] == mk_int(0) and idx[3] == n
-                    val_ok = (ev.val == idx) if role == "index" else (ev.val == mk_int(1))
-                    if full and val_ok:
+                tgt = [x for x in subterms(a) if x[0] == "ref" and x[1][0] == "field" and x[1][2] in resized]
+                if not tgt:
+                    continue
+                f = tgt[0][1][2]
+                nmc = ev.extra.get("name")
+                if nmc == "clear":
+                    cleared.add(f)
+                elif nmc == "resize" and ev.args[1] == n:
+                    resized[f] = True
+                    # clear(); resize(n, 1) initialises every element
+                    if f in cleared and want[f] == "one" and ev.args[2] == mk_int(1):
                         done[f] = True
+                elif nmc == "fill" and want[f] == "one" and ev.args[1] == mk_int(1) and resized[f]:
+                    done[f] = True
+            if ev.kind == "store":
+                for f in want:
+                    c = conforming(ev, f)
+                    if c is False:
+                        stray[f].append(ev)
             if ev.kind == "store" and ev.place[0] == "field" and ev.place[2] in want:
                 if _whole_init(ev.val, n, want[ev.place[2]]):
                     done[ev.place[2]] = True
                     resized[ev.place[2]] = True
+    for head, sts in I.backedge_states.items():
+        for f in want:
+            if sts and all(any(ev.kind == "store" and conforming(ev, f) for ev in st.event_list()) for st in sts):
+                done[f] = True
+    for f in want:
+        if stray[f]:
+            done[f] = False
     for f in (P, SZ):
         nm = "parent" if f == P else "size"
         if done[f] and resized[f]:
